@@ -55,3 +55,13 @@ pub fn scan_and_hand_on(v: &[usize], limit: usize) -> (usize, std::slice::Iter<'
     }
     (seen, iter)
 }
+
+/// W1: a length pushed through a narrower type.
+pub fn narrow_len(len: usize) -> u64 {
+    len as u32 as u64
+}
+
+/// W2: arithmetic in a narrow type, widened afterwards.
+pub fn narrow_sum(a: u8) -> usize {
+    (a + 1) as usize
+}
